@@ -84,11 +84,11 @@ class MapV:
 
 
 class En:
-    """enum value"""
-    __slots__ = ('v', 'f')
+    """enum value (ty = name of the enum when known; needed where two enums share a variant name)"""
+    __slots__ = ('v', 'f', 'ty')
 
-    def __init__(self, variant, fields=()):
-        self.v, self.f = variant, list(fields)
+    def __init__(self, variant, fields=(), ty=None):
+        self.v, self.f, self.ty = variant, list(fields), ty
 
     def __repr__(self):
         return f'{self.v}{self.f}'
@@ -167,7 +167,7 @@ def deep_copy(v):
     if isinstance(v, list):
         return [deep_copy(x) for x in v]
     if isinstance(v, En):
-        return En(v.v, [deep_copy(x) for x in v.f])
+        return En(v.v, [deep_copy(x) for x in v.f], v.ty)
     return v
 
 
